@@ -55,7 +55,9 @@ Record c05_event := {
   ev_maxlen : Z;
   ev_res : option string;             (* its result (None: it raised) *)
   ev_added : option string;           (* the name under which the object was inserted (None: nothing inserted) *)
-  ev_ns : list string }.              (* keys of Module.namespace just before the insertion *)
+  ev_ns : list string;                (* keys of Module.namespace just before the insertion *)
+  ev_held : list string }.            (* keys of the per-type containers (ports, signals, instances, instarrays, instbundles,
+                                         bundles) just before the insertion: what `_add` looks at when it deletes *)
 
 Definition dummy : obj := {| o_kind := KSig; o_id := 0 |}.
 Definition ns_of (ks : list string) : ns := map (fun k => (k, dummy)) ks.
@@ -69,15 +71,19 @@ Definition ev_ok (e : c05_event) : bool :=
   | None => false
   | Some a =>
       same_set a (ev_ns e) &&
+      (* the two views of the Module list the same attributes (Model/C05Module.v:magree, Props/C05M.v:C05M_views_agree) *)
+      same_set (ev_held e) (ev_ns e) &&
       match invent (ev_site e) (ns_of (ev_ns e)) with
       | Ok n => sopt_eqb (ev_res e) (Some n) && sopt_eqb (ev_added e) (Some n)
       | Error _ => sopt_eqb (ev_res e) None && sopt_eqb (ev_added e) None
       end
   end.
 
-(* property-level reading of one insertion, independent of the model: the inserted name was not bound before *)
+(* property-level reading of one insertion, independent of the model: the inserted name was not present in the Module
+   before - neither in its namespace nor in any of its per-type containers (an attribute held there under the name would be
+   deleted or replaced by `_add`, whatever the namespace says) *)
 Definition ev_fresh (e : c05_event) : bool :=
-  match ev_added e with Some n => negb (smem n (ev_ns e)) | None => true end.
+  match ev_added e with Some n => negb (smem n (ev_ns e)) && negb (smem n (ev_held e)) | None => true end.
 
 Definition site_key (e : c05_event) : string * site := (ev_mod e, ev_site e).
 Definition msite_eqb (a b : string * site) : bool := String.eqb (fst a) (fst b) && site_eqb (snd a) (snd b).
@@ -106,6 +112,9 @@ Definition keep_ok (p : package) (k : string * list (string * Z) * list string) 
 Definition chk_c05 (c : c05_case) : Z :=
   let c1 := chk_c01 (c5_c01 c) in
   let steps := forallb ev_ok (c5_events c) in
+  (* an insertion under a name the Module already held is a violation whatever happens afterwards (also when a later
+     pass raises, and also when the written design cannot be evaluated) *)
+  if negb (forallb ev_fresh (c5_events c)) then 1 else
   if c1 =? 3 then 3 else
   match cc_pkg (c5_c01 c) with
   | None => if steps then 4 else 2
